@@ -22,7 +22,7 @@ EXPLANATION = (
     'index from the history size; (4) every Game::GameState enumerator has an arm in getGameStateString and getPGNResultString.'
     ' (5) the en-passant mask tables are correct for all 8 files and makeMove records an en-passant square only under the mask test (a spurious en-passant square makes rule-equal positions hash differently).'
     ' Added later; (7) the index set, key comparison and claim rule of the repetition scan canClaimDrawRep (finite evaluation of its own init / bound / step expressions for list lengths 0..16 and clocks 0..20); (8) every replayed move on a game position (UCI move list, console move and redo) is followed by fixupEPSquare before its key is read again (found and fixed defects D13, D14).'
-    ' Added later; (9) drawRuleEquals compares side to move, castling rights, en-passant square and the complete placement. (10) = C02.12 the en-passant normaliser the history relies on. (11) Game::getHistory takes back the moves n-1 .. 0, each with its own undo record, and stops early only at a half-move clock of 0 (game lengths 0..12 evaluated).')
+    ' Added later; (9) drawRuleEquals compares side to move, castling rights, en-passant square and the complete placement. (10) = C02.12 the en-passant normaliser the history relies on. (11) Game::getHistory takes back the moves n-1 .. 0, each with its own undo record, and stops early only at a half-move clock of 0 (game lengths 0..12 evaluated). (12) every two-type piece set of Game::insufficientMaterial joins the white and the black piece of one kind.')
 UNDECIDED = ('equality of hash keys for rule-equal positions beyond the structural clauses (value-level); the index arithmetic of canClaimDrawRep (start -4, step 2, clock bound) - value-level off-by-one territory; console draw '
              'claim semantics. Noticed, outside the property as stated and therefore not reported: WorkerThread::doSearch pushes the hash '
              'of the position AFTER the root move, so helper threads miss in-tree repetitions of the root position (never compared at the root level).')
@@ -76,6 +76,7 @@ def run(fb, rep, tier):
     from . import C02
     C02.c12_ep_normaliser(fb, rep, 'C11.10')
     c11_console_history(fb, rep)
+    c12_dead_material_both_colours(fb, rep)
 
 
 def c6_parallel_lists(fb, rep):
@@ -782,3 +783,33 @@ def c11_console_history(fb, rep):
                    isinstance(_strip7(c), dict) and _strip7(c).get('op') == '==' and (_strip7(_strip7(c).get('r')) or {}).get('cv') == 0 for c, side in gs):
             early_ok = False
     rep.ob(clause, 'K4 guard', 'getHistory stops early only at a position whose half-move clock is 0', early_ok, f.where, '%d early exit(s)' % len(exits), f.sname)
+
+
+# ----------------------------------------------------------------------------- .12
+
+def c12_dead_material_both_colours(fb, rep):
+    """K10 colour symmetry of the dead-material test.  Game::insufficientMaterial() decides "all bishops on one square colour"
+    and similar facts over the men of *both* sides; every two-type piece set it builds must therefore join the white and the
+    black piece of one kind.  A set that names the same colour twice ignores the other side's men: K+B v K+B with
+    opposite-coloured bishops is then declared dead although mate is possible, and the console refuses every move."""
+    clause = 'C11.12'
+    f = fb.find1('Game::insufficientMaterial')
+    if rep.need(clause, f, 'Game::insufficientMaterial') is None:
+        return
+    bking = fb.const('Piece::BKING')
+    wking = fb.const('Piece::WKING')
+    if rep.need(clause, None if None in (bking, wking) else 1, 'Piece constants') is None:
+        return
+    seen, n = set(), 0
+    for b, i, e in f.events():
+        for x in walk(e):
+            if isinstance(x, dict) and x.get('k') == 'call' and cname(x) == 'Position::pieceTypeBB' and len(x.get('args', [])) == 2:
+                key = (e.get('ln'), show(x, 80))
+                if key in seen:
+                    continue
+                seen.add(key)
+                n += 1
+                a = [(_strip7(y) or {}).get('cv') for y in x['args']]
+                ok = None not in a and a[0] != a[1] and abs(a[0] - a[1]) == bking - wking
+                rep.ob(clause, 'K10 colour symmetry', 'insufficientMaterial: a two-type piece set joins the white and the black piece of one kind', ok, R.site(f, e), show(x, 80), f.sname)
+    rep.floor(clause, 'two-type piece sets in insufficientMaterial', n, 1)
